@@ -371,12 +371,15 @@ def install(eng, w):
         k = w.pickle_outcome
         if k is None:
             return w.db
+        if getattr(f, "codec", None) and eng.choice(2):
+            # an unloadable file read through a decompressing reader can also fail in the reader
+            raise PyRaise(codec_error(eng, f.codec))
         if k.startswith("RuntimeError"):
             msg = "DeserializingStream::unpack failed" if k.endswith("deserialization") else "some other runtime error"
             raise PyRaise(make_exc("RuntimeError", msg))
         raise PyRaise(make_exc(k, "truncated or garbled pickle"))
     pickle = ModuleStub("pickle", {"load": stub(pickle_load), "UnpicklingError": EXC["UnpicklingError"], "PickleError": EXC["PickleError"], "PicklingError": EXC["PicklingError"],
-                                   "dump": stub(lambda eng, *a, **k: None)})
+                                   "dump": stub(lambda eng, *a, **k: None), "PROTO": b"\x80", "HIGHEST_PROTOCOL": 5, "DEFAULT_PROTOCOL": 4})
 
     def open_(eng, p, mode="r", **kw):
         if isinstance(p, PathStr) and p.label == w.db_label and "r" in mode:
@@ -384,6 +387,13 @@ def install(eng, w):
                 raise PyRaise(make_exc("FileNotFoundError", p.label))
         return FileCtx()
     eng.builtins["open"] = stub(open_)
+    for codec, fname in (("gzip", "GzipFile"), ("bz2", "BZ2File"), ("lzma", "LZMAFile")):
+        def copen(eng, p, mode="rb", _c=codec, **kw):
+            fobj = open_(eng, p, mode)
+            fobj.codec = _c
+            return fobj
+        eng.ext_modules[codec] = ModuleStub(codec, {"open": stub(copen), fname: stub(copen), "BadGzipFile": VClass("BadGzipFile", [EXC["OSError"]]),
+                                                    "LZMAError": VClass("LZMAError", [EXC["Exception"]])})
     typing = ModuleStub("typing", {})
     typing.attrs.update({k: typing for k in ("Dict", "List", "Optional", "Union", "Iterable", "Tuple")})
     log = ModuleStub("logging", {"getLogger": stub(lambda eng, *a: NoOp())})
@@ -400,13 +410,47 @@ def install(eng, w):
     eng.call_contracts["_merge_default_options"] = merge
 
 
+class FilePart(Ext):
+    """bytes read from a file whose content is not known: a comparison with a constant can go either way"""
+    type_names = ("bytes",)
+
+    def sym_eq(self, eng, other):
+        return eng.fresh_bool("file_bytes_equal_constant")
+
+    def sym_getitem(self, eng, key):
+        return FilePart()
+
+    def sym_getattr(self, eng, name):
+        if name in ("startswith", "endswith"):
+            return stub(lambda eng, *a: eng.fresh_bool("file_bytes_" + name))
+        raise Unsupported("bytes.%s on bytes read from a file" % name)
+
+
 class FileCtx(Ext):
+    """an open file; codec names the decompressing reader it is wrapped in (gzip / bz2 / lzma), if any"""
+
+    def __init__(self, codec=None):
+        self.codec = codec
+
     def sym_getattr(self, eng, name):
         if name == "__enter__":
             return stub(lambda eng: self)
         if name == "__exit__":
             return stub(lambda eng, *a: False)
+        if name in ("read", "peek", "readline"):
+            return stub(lambda eng, *a: FilePart())
+        if name in ("close", "flush", "seek"):
+            return stub(lambda eng, *a: None)
         raise Unsupported("file.%s" % name)
+
+
+def codec_error(eng, codec):
+    """what reading a truncated or garbled compressed file raises besides the unpickling errors: gzip.BadGzipFile (an OSError),
+    zlib.error, EOFError; OSError for bz2; lzma.LZMAError"""
+    zerr = VClass("error", [EXC["Exception"]])
+    table = {"gzip": [VClass("BadGzipFile", [EXC["OSError"]]), zerr, EXC["EOFError"]], "bz2": [EXC["OSError"], EXC["EOFError"]],
+             "lzma": [VClass("LZMAError", [EXC["Exception"]]), EXC["EOFError"]]}[codec]
+    return VObj(table[eng.choice(len(table))], {"args": ("not a valid %s stream" % codec,)})
 
 
 class CollectionsStub(Ext):
@@ -628,6 +672,12 @@ class SaveFile(Ext):
                 self.rec["closed"].append(self.path)
                 return False
             return stub(ex)
+        if name in ("read", "peek", "readline"):
+            return stub(lambda eng, *a: FilePart())
+        if name in ("flush", "seek"):
+            return stub(lambda eng, *a: None)
+        if name == "close":
+            return stub(lambda eng: self.rec["closed"].append(self.path))
         raise Unsupported("file.%s" % name)
 
 
@@ -661,6 +711,10 @@ def run_save(eng, w, model, options, pre_existing=None, codegen_libs=None, concu
         exists[label] = z3.BoolVal(True)
         return SaveFile(rec, label, mode)
     eng.builtins["open"] = stub(open_)
+    for codec, fname in (("gzip", "GzipFile"), ("bz2", "BZ2File"), ("lzma", "LZMAFile")):
+        # a compressing writer opens (creates / truncates) the file under the name it is given, like open()
+        eng.ext_modules[codec] = ModuleStub(codec, {"open": stub(lambda eng, p, mode="rb", **kw: open_(eng, p, mode)),
+                                                    fname: stub(lambda eng, p, mode="rb", **kw: open_(eng, p, mode))})
     os_mod = eng.ext_modules["os"]
 
     def replace(eng, a, b):
